@@ -10,6 +10,7 @@ Pipeline (every run, from the repo's current working tree):
      Monitors/SMm.v evaluated on the IMPLEMENTATION's observations (vm_compute).
 """
 import ast
+import json
 import os
 import re
 import subprocess
@@ -124,6 +125,7 @@ def run_harness(c, binary, cases, traces, patient=False):
             lines.append(" ".join(str(x) for x in ev))
     # index of the first input line of each trace
     results = [None] * len(traces)
+    c.sm_cut = {}          # index (in this call) -> number of events compared, for histories that ended in a shutdown panic
     start = 0
     restarts = 0
     stderr_tail = ""
@@ -157,8 +159,21 @@ def run_harness(c, binary, cases, traces, patient=False):
         if site == 99:
             c.notes.append("unrecognised panic in trace %d: %s" % (cur, err[:1200]))
         blocked = results[cur] and results[cur][-1][0] and results[cur][-1][0][-1] == [23]
+        k_dead = len(results[cur])
+        at_stop = k_dead >= len(traces[cur]) or traces[cur][k_dead][0][0] == 2
         if blocked:
             pass
+        elif site in (9, 10) and at_stop:
+            # SHUTDOWN manifestation of the known finding jump-ahead-after-round-advance-panics (C08, witness w7): the
+            # view update that advanced the round (nil precommit quorum) also carried a jump-ahead; the kernel is blocked
+            # in the round entrance of the advance, and when the context is cancelled (Stop event, or the harness
+            # stopping the machine at the end of the history) the rest of handleViewUpdate still runs and panics in
+            # handleJumpAhead. The process is gone (its in-memory stores too), so the history ends here: it is
+            # compared up to and including the Stop (which shows nothing else), the rest is not run.
+            if k_dead < len(traces[cur]):
+                results[cur].append(([], []))
+            c.sm_cut[cur] = len(results[cur])
+            c.sm_shutdown_panics = getattr(c, "sm_shutdown_panics", 0) + 1
         elif site is not None:
             # the deferred close(kernelDone) of a panicking kernel may have been reported as HALT
             # just before the process died: then that (last printed) event is the panicking one
@@ -282,7 +297,7 @@ def coq_impl(impl):
     return "[" + "; ".join("(%s, %s)" % (coq_ll(a), coq_ll(b)) for a, b in impl) + "]"
 
 
-def judge_walked(c, tag, cases, impls, events_of=None):
+def judge_walked(c, tag, cases, impls, events_of=None, cuts=None):
     """coqc run B: correspondence + monitors on the implementation's observations (and on the model's).
     Returns list of dicts name->bool (model monitor values under 'model:<name>').
     events_of(k, sg, cs): Gallina expression of the k-th history's events (default: the model walk)."""
@@ -290,6 +305,9 @@ def judge_walked(c, tag, cases, impls, events_of=None):
     shard = 40
     if events_of is None:
         events_of = lambda k, sg, cs: "(gen_trace %s %s)" % ("true" if sg else "false", coq_list(cs))
+    if cuts:
+        inner = events_of
+        events_of = lambda k, sg, cs: ("(firstn %d%%nat %s)" % (cuts[k], inner(k, sg, cs))) if k in cuts else inner(k, sg, cs)
     for si in range(0, len(cases), shard):
         body = EVAL_HEADER + "Definition res := Eval vm_compute in [\n%s].\nPrint res.\n" % ";\n".join(
             "judge %s %s %s" % (events_of(si + k, sg, cs), "true" if sg else "false", coq_impl(impls[si + k]))
@@ -473,7 +491,18 @@ def walked(c, pid, binary, tag, n_traces, steps, clauses, classify, stale=False)
         return
     cases, traces = r["cases"], r["traces"]
     impl, restarts = run_harness(c, binary, cases, traces)
-    flags = judge_walked(c, tag, cases, impl)
+    cuts = dict(c.sm_cut)
+    for i, kk in cuts.items():
+        traces[i] = traces[i][:kk]
+    if cuts:
+        key7 = WITNESS_KEYS[7][1]
+        c.coverage["histories_ended_by_a_shutdown_panic"] = len(cuts)
+        if pid == "C08":
+            i0 = sorted(cuts)[0]
+            c.report(key7, WITNESS_KEYS[7][2] + " - here at shutdown: the context is cancelled while the round entrance of the advance is pending",
+                     {"signer": cases[i0][0], "how": "bin/h_sm < replay input (the process dies while stopping)",
+                      "harness_input": harness_input(cases[i0][0], traces[i0]), "trace": render(traces[i0], impl[i0])[-6:]})
+    flags = judge_walked(c, tag, cases, impl, cuts=cuts)
     if flags is None:
         return
     if stale:
@@ -491,7 +520,8 @@ def walked(c, pid, binary, tag, n_traces, steps, clauses, classify, stale=False)
         if not pending:
             break
         im2, _r = run_harness(c, binary, [cases[i] for i in pending], [traces[i] for i in pending], patient=(attempt > 0))
-        fl2 = judge_walked(c, tag + "_again", [cases[i] for i in pending], im2)
+        cuts2 = {k: cuts[i] for k, i in enumerate(pending) if i in cuts}
+        fl2 = judge_walked(c, tag + "_again", [cases[i] for i in pending], im2, cuts=cuts2)
         if fl2 is None:
             break
         still = []
@@ -529,7 +559,9 @@ def walked(c, pid, binary, tag, n_traces, steps, clauses, classify, stale=False)
     monitor_failed = any(v[3] for v in c.violations)
     if bad_corr and not monitor_failed:
         i, d = bad_corr[0]
-        d = 0 if d is None else d
+        if os.environ.get("VERIF_DEBUG_DUMP"):
+            json.dump({"case": cases[i], "trace": traces[i], "impl": impl[i], "flags": flags[i], "d": d}, open(os.environ["VERIF_DEBUG_DUMP"], "w"))
+        d = (len(traces[i]) - 1) if d is None else d      # no positional difference: the whole history is the replay
         c.fail_obligation("correspondence Model/StateMachine.v vs tm/tmengine/internal/tmstate/statemachine.go",
                           "model and real state machine differ on %d of %d generated histories; first: trace %d event %d" % (len(bad_corr), len(traces), i, d),
                           {"signer": cases[i][0], "harness_input": harness_input(cases[i][0], traces[i], d),
